@@ -6,7 +6,10 @@ package main
 //
 //	base=<hex> hdr=<nil|-|Khex~vhex,vhex+…> ctor=<Get|Delete|PostJSONBody|…|Do|DoBody|DoMP> m=<hex> ct=<hex> tmpl=<hex>: op ; op ; …
 //	ops:  call <params> <body>       params: nil | - | khex=s<vhex>,khex=i<int>    body: nil | j<ahex>:<n> | f- | f<khex>=<vhex>,…
-//	      eval <io index> <fault> <resp>     fault: none|ser|tx|read|dec|dect      resp: ok<vhex>:<k> | bad
+//	                                 (further value kinds: l<int> int64, b<0|1> bool, t<vhex> defined string type, g<vhex> fmt.Stringer)
+//	      eval <io index> <fault> <resp>     fault: none|ser|tx|read|dec|dect      resp: ok<vhex>:<k>[:<status>] | bad[:<status>] | empty[:<status>] (no body at all)
+//	                                          (<status> = HTTP status of the stub's response, 200 if absent; the property decodes
+//	                                          the body whatever the status is)
 //	      mut (add a header to the request that was sent last) | dh (print DefaultHeader) | sent (transport calls so far)
 //
 // The API talks to a stub http.RoundTripper (no network) that records method, URL, headers and body and injects
@@ -50,6 +53,12 @@ var (
 	c17ErrRead = errors.New("injected body read failure")
 	c17ErrDec  = errors.New("injected decoder failure")
 )
+
+type c17Str string
+
+type c17Stringer struct{ s string }
+
+func (x c17Stringer) String() string { return x.s }
 
 type c17FailReader struct{}
 
@@ -154,19 +163,41 @@ func (s *c17Stub) RoundTrip(r *http.Request) (*http.Response, error) {
 	case s.fault == "read":
 		body = c17FailReader{}
 	case strings.HasPrefix(s.resp, "ok"):
-		parts := strings.SplitN(s.resp[2:], ":", 2)
+		parts := strings.SplitN(s.resp[2:], ":", 3)
 		k := 0
-		if len(parts) == 2 {
+		if len(parts) >= 2 {
 			k, _ = strconv.Atoi(parts[1])
 		}
 		b, _ := json.Marshal(c17Target{V: unhx(parts[0]), K: k})
 		body = bytes.NewReader(b)
+	case strings.HasPrefix(s.resp, "empty"):
+		// a response without any body: still handed to the deserializer (which fails on it, as on `bad`)
+		body = strings.NewReader("")
 	default:
 		body = strings.NewReader("{")
 	}
-	return &http.Response{StatusCode: 200, Status: "200 OK", Proto: "HTTP/1.1", ProtoMajor: 1, ProtoMinor: 1,
+	status := c17RespStatus(s.resp)
+	return &http.Response{StatusCode: status, Status: strconv.Itoa(status) + " " + http.StatusText(status), Proto: "HTTP/1.1", ProtoMajor: 1, ProtoMinor: 1,
 		Header: http.Header{}, Body: io.NopCloser(body), Request: r, ContentLength: -1}, nil
 }
+
+// the HTTP status the stub answers with: last ":"-field of `ok<vhex>:<k>:<status>` / `bad:<status>`, 200 by default
+func c17RespStatus(resp string) int {
+	fs := strings.Split(resp, ":")
+	want := 2
+	if strings.HasPrefix(resp, "ok") {
+		want = 3
+	}
+	if len(fs) == want {
+		if st, err := strconv.Atoi(fs[want-1]); err == nil && st >= 200 && st <= 599 {
+			return st
+		}
+	}
+	return 200
+}
+
+// statuses without redirect semantics in net/http's client (3xx is left out: Client.Do would look for a Location)
+var c17Statuses = []int{200, 201, 202, 204, 400, 401, 404, 409, 500, 503}
 
 func c17ParseHeader(s string) http.Header {
 	if s == "nil" {
@@ -203,10 +234,22 @@ func c17ParseParams(s string) network.PathParam {
 		if len(kv) != 2 || kv[1] == "" {
 			continue
 		}
-		if kv[1][0] == 'i' {
+		// the property says "replaced by its value" for any printable value: besides string and int, an int64, a bool, a
+		// defined string type and a fmt.Stringer (all printed by %v as the model prints them)
+		switch kv[1][0] {
+		case 'i':
 			n, _ := strconv.Atoi(kv[1][1:])
 			p[unhx(kv[0])] = n
-		} else {
+		case 'l':
+			n, _ := strconv.ParseInt(kv[1][1:], 10, 64)
+			p[unhx(kv[0])] = n
+		case 'b':
+			p[unhx(kv[0])] = kv[1][1:] == "1"
+		case 't':
+			p[unhx(kv[0])] = c17Str(unhx(kv[1][1:]))
+		case 'g':
+			p[unhx(kv[0])] = c17Stringer{unhx(kv[1][1:])}
+		default:
 			p[unhx(kv[0])] = unhx(kv[1][1:])
 		}
 	}
@@ -454,9 +497,18 @@ func c17GenParams(rng *rand.Rand, tmplKeys []string) string {
 	rng.Shuffle(len(order), func(i, j int) { order[i], order[j] = order[j], order[i] })
 	parts := make([]string, len(order))
 	for i, k := range order {
-		if rng.Intn(5) == 0 {
+		switch r := rng.Intn(20); {
+		case r < 4:
 			parts[i] = hx(k) + "=i" + strconv.Itoa(rng.Intn(2000)-500)
-		} else {
+		case r == 4:
+			parts[i] = hx(k) + "=l" + strconv.Itoa(rng.Intn(2000)-500)
+		case r == 5:
+			parts[i] = hx(k) + "=b" + strconv.Itoa(rng.Intn(2))
+		case r == 6:
+			parts[i] = hx(k) + "=t" + hx(c17Vals[rng.Intn(len(c17Vals))])
+		case r == 7:
+			parts[i] = hx(k) + "=g" + hx(c17Vals[rng.Intn(len(c17Vals))])
+		default:
 			parts[i] = hx(k) + "=s" + hx(c17Vals[rng.Intn(len(c17Vals))])
 		}
 	}
@@ -494,10 +546,17 @@ func c17GenBody(rng *rand.Rand, kind int) string {
 }
 
 func c17GenResp(rng *rand.Rand) string {
-	if rng.Intn(6) == 0 {
-		return "bad"
+	st := ""
+	if rng.Intn(2) == 0 {
+		st = ":" + strconv.Itoa(c17Statuses[rng.Intn(len(c17Statuses))])
 	}
-	return "ok" + hx(c17Words[rng.Intn(len(c17Words))]) + ":" + strconv.Itoa(rng.Intn(100)-10)
+	switch rng.Intn(12) {
+	case 0:
+		return "bad" + st
+	case 1:
+		return "empty" + st
+	}
+	return "ok" + hx(c17Words[rng.Intn(len(c17Words))]) + ":" + strconv.Itoa(rng.Intn(100)-10) + st
 }
 
 func c17Head(base, hdr, ctor, m, ct, tmpl string) string {
@@ -517,6 +576,17 @@ func c17Gen(tier string, rng *rand.Rand, emit func(string)) map[string]interface
 	stats := map[string]int{}
 	count := func(k string) { stats[k]++ }
 	// 1. bounded-exhaustive: every constructor x every fault x 0/1/2 evaluations x header variants, fixed 2-placeholder template
+	for _, ctor := range c17Ctors {
+		for _, f := range []string{"none", "dec", "dect"} {
+			for _, st := range []string{"", ":204", ":200", ":500"} {
+				body := "nil"
+				if c17Kind(ctor) == 1 {
+					body = "j" + hx("a") + ":1"
+				}
+				emit(c17Head(c17Bases[0], "nil", ctor, c17Methods[0], c17CTypes[0], "e/{id}") + "call " + hx("id") + "=i1 " + body + " ; eval 0 " + f + " empty" + st + " ; sent ; eval 0 none ok" + hx("v") + ":2 ; sent")
+			}
+		}
+	}
 	exhaustive := 0
 	for _, ctor := range c17Ctors {
 		for _, f := range c17Faults {
@@ -536,7 +606,11 @@ func c17Gen(tier string, rng *rand.Rand, emit func(string)) map[string]interface
 						m := c17Methods[(hi+evals)%8]
 						ops := []string{"sent", "call " + hx("id") + "=i7," + hx("name") + "=s" + hx("id") + " " + body, "sent"}
 						for e := 0; e < evals; e++ {
-							ops = append(ops, "eval 0 "+f+" ok"+hx("r")+":"+strconv.Itoa(e), "sent")
+							st := ""
+							if (hi+e)%2 == 1 {
+								st = ":" + strconv.Itoa(c17Statuses[(exhaustive+e)%len(c17Statuses)])
+							}
+							ops = append(ops, "eval 0 "+f+" ok"+hx("r")+":"+strconv.Itoa(e)+st, "sent")
 						}
 						ops = append(ops, "mut", "dh")
 						emit(c17Head(c17Bases[hi%len(c17Bases)], hdr, ctor, m, c17CTypes[hi%len(c17CTypes)], "users/{id}/n/{name}") + strings.Join(ops, " ; "))
